@@ -38,6 +38,8 @@ def install(engine):
         return VInt(f"(bv2nat (bvor ((_ int2bv 16) {a.t}) ((_ int2bv 16) {b.t})))")
 
     engine.binop_hooks["Int.BitOr"] = bitor
+    engine.binop_hooks["Int.BitAnd"] = lambda it, a, b: VInt(f"(bv2nat (bvand ((_ int2bv 16) {a.t}) ((_ int2bv 16) {b.t})))")
+    engine.binop_hooks["Int.BitXor"] = lambda it, a, b: VInt(f"(bv2nat (bvxor ((_ int2bv 16) {a.t}) ((_ int2bv 16) {b.t})))")
 
     def owner_writable(it, n):
         m = it.eval(n.args[0])
@@ -65,7 +67,7 @@ HANDLE_OVERWRITE = Contract(
 SET_FILE_MODE = Contract(
     target="nunavut/_postprocessors.py:SetFileMode.__call__",
     params={"self": SObj("SetFileMode", {"_file_mode": SInt}), "generated": PATH},
-    requires=["generated.exists_"],
+    requires=["generated.exists_", "0 <= generated.mode and generated.mode < 65536", "0 <= self._file_mode and self._file_mode < 4096"],
     ensures=[("requested-permission-bits", "generated.mode == self._file_mode"), ("same-path-returned", "result is generated"),
              ("content-untouched", "generated.content == old(generated.content)")],
     modifies=["generated.mode"],
